@@ -7,6 +7,14 @@ Real classes (every Message subclass, by introspection):
    str, list, dict) through the constructor (= from_dict / from_json path) and from_urlencoded;
  * truth tables of the cross-parameter rules of oidc.AuthorizationRequest (also run through the model),
    RegistrationRequest / RegistrationResponse and IdToken;
+ * the rules over a SET of parameters (at most one of / at least one of / all or none of / X comes with all of /
+   X excludes all of): every such rule of idpyoidc.message (CIBA AuthenticationRequest's three hints through
+   Message.has_none_or_one_of, its `request` exclusivity and mode rule; request / request_uri; the registration
+   pairs; sub / sid; post_logout_redirect_uri / id_token_hint; client_secret / client_secret_expires_at; grant types /
+   redirect_uris; device_code / grant_type / client_id) on the FULL presence table of the set (2^n patterns, e.g.
+   present-absent-present), the present members in every order, along every construction path (and inside a signed
+   request object); the helper itself on every pattern of 0..4 names in every order; all through the model
+   (Model/MsgRules.v presence / has_none_or_one_of / ciba_authn_verify / clientinfo_verify / device_verify ...);
  * oidc.AuthorizationResponse with a real signed ID Token: the full truth table of the two hash rules (code x
    access_token x c_hash right / wrong / absent / wrong width x at_hash likewise x signing algorithm x the four
    construction paths), also through the model (Model/MsgRules.v oidc_authzresp_verify_idt); the token response
@@ -38,7 +46,14 @@ RULE = ("every Message subclass (introspection): base message of its required pa
         "with a signed, otherwise valid ID Token: {code, no code} x {access_token, none} x c_hash {right, of another code, "
         "absent, right value under another hash width} x at_hash likewise x {RS256, RS384, RS512, ES256, HS256} x "
         "{constructor, from_dict, from_json, from_urlencoded} (1280 rows) + rows where another rule fails as well + "
-        "oidc.AccessTokenResponse (no hash rule), oracle = hashlib left hash of what the accepted response carries; signed-object "
+        "oidc.AccessTokenResponse (no hash rule), oracle = hashlib left hash of what the accepted response carries; "
+        "rules over a set of parameters (CIBA hints at most one of 3 + request excludes the 9 inside-only parameters + mode rule, "
+        "request / request_uri, registration_client_uri / registration_access_token, the three *_enc / *_alg pairs, sub / sid, "
+        "post_logout_redirect_uri / id_token_hint, client_secret / client_secret_expires_at, grant_types / redirect_uris, device_code / "
+        "grant_type / client_id): all 2^n presence patterns of otherwise valid messages (signed JWT members really signed) x every order "
+        "of the present members x {constructor, from_dict, from_json, from_urlencoded, item assignment, inside a signed request object}, "
+        "oracle = the rule as a predicate on the number of present members; Message.has_none_or_one_of on every pattern of 0..4 names "
+        "x every order of the names; signed-object "
         "matrix (valid / tampered / wrong key / alg none / bare JSON, each also encrypted as a JWE to the verifier's own "
         "published encryption key, with and without the allowed_sign_alg keyword) for id_token, request, logout_token; "
         "request-object matrix "
@@ -87,7 +102,8 @@ class Run:
         self.rng = ctx.rng
         self.classes = C.discover()
         self.byname = dict(self.classes)
-        self.cases = {"verify": [], "construct": [], "authz": [], "rules": [], "request": [], "bclogout": [], "authzresp_idt": []}
+        self.cases = {"verify": [], "construct": [], "authz": [], "rules": [], "request": [], "bclogout": [], "authzresp_idt": [],
+                      "setrules": [], "ciba": [], "none_or_one": []}
         self.kj = build_keyjar([{"type": "RSA", "use": ["sig"]}, {"type": "EC", "crv": "P-256", "use": ["sig"]}])
         self.kj.import_jwks(self.kj.export_jwks(private=True), "https://op.example")
         self.kj.import_jwks(self.kj.export_jwks(private=True), "c")
@@ -901,6 +917,500 @@ class Run:
                 args["ui_locales"] = loc
             self.rule_case("endsession", O + "session.EndSessionRequest", args, {}, o_end)
 
+    # ------------------------------------------------------------ C4. rules over a SET of parameters
+    # "at most one of / at least one of / all or none of / X comes with all of / X excludes all of" a set of
+    # parameters.  Every such rule of idpyoidc.message (found by reading every verify() and the helpers of Message):
+    #   backchannel_authentication.AuthenticationRequest  at most one of id_token_hint / login_hint / login_hint_token
+    #                                                     (Message.has_none_or_one_of); `request` excludes every
+    #                                                     parameter that is not client authentication; ping / push
+    #                                                     mode comes with client_notification_token
+    #   oauth2.JWTSecuredAuthorizationRequest             at least one of request / request_uri
+    #   oidc.RegistrationResponse                         all or none of registration_client_uri / registration_access_token
+    #   oidc.RegistrationRequest                          <p>_enc comes with <p>_alg, three pairs
+    #   session.LogoutToken                               at least one of sub / sid
+    #   session.EndSessionRequest                         post_logout_redirect_uri comes with id_token_hint
+    #   oauth2.OauthClientInformationResponse             client_secret comes with client_secret_expires_at
+    #   oauth2.OauthClientMetadata (+ subclass)           grant_types authorization_code / implicit come with redirect_uris
+    #   oauth2.device_authorization.AccessTokenRequest    device_code comes with grant_type AND client_id
+    # (TokenExchangeRequest, RefreshAccessTokenRequest and the CIBA TokenRequest have no rule at the message level.)
+    # For each: the FULL presence table over the set (2^n patterns of otherwise valid messages; a member that has to
+    # be a signed JWT is one), the present members given in every order, along every construction path.  Oracle: the
+    # rule as a predicate on the NUMBER of present members - never the library's helper.
+    @staticmethod
+    def at_most_one(pres):
+        return sum(1 for p in pres if p) <= 1
+
+    @staticmethod
+    def at_least_one(pres):
+        return sum(1 for p in pres if p) >= 1
+
+    @staticmethod
+    def all_or_none(pres):
+        return sum(1 for p in pres if p) in (0, len(pres))
+
+    @staticmethod
+    def comes_with_all(a, pres):
+        return (not a) or sum(1 for p in pres if p) == len(pres)
+
+    @staticmethod
+    def excludes_all(a, pres):
+        return (not a) or sum(1 for p in pres if p) == 0
+
+    SET_PATHS = ("constructor", "from_dict", "from_json", "from_urlencoded", "setitem")
+
+    def set_orders(self, names, cap=6):
+        """the orders in which the present members are given: every permutation (up to `cap`), else the listed
+        order, its reverse and random ones"""
+        names = list(names)
+        perms = list(itertools.permutations(names))
+        if len(perms) <= cap:
+            return perms
+        return [tuple(names), tuple(reversed(names))] + [tuple(self.rng.sample(names, len(names))) for _ in range(cap - 2)]
+
+    @staticmethod
+    def set_build(cls, path, items):
+        """the message holding `items` (ordered [(name, value)]) along one construction path"""
+        args = {k: copy.deepcopy(v) for k, v in items}
+        if path == "constructor":
+            return cls(**args)
+        if path == "no-defaults":
+            return cls(set_defaults=False, **args)
+        if path == "from_dict":
+            return cls().from_dict(args)
+        if path == "from_json":
+            return cls().from_json(json.dumps(args))
+        if path == "from_urlencoded":
+            return cls().from_urlencoded(cls(**args).to_urlencoded())
+        if path == "setitem":
+            m = cls()
+            for k, v in args.items():
+                m[k] = v
+            return m
+        raise ValueError(path)
+
+    @staticmethod
+    def short_jws(v):
+        """the model never reads a compact serialisation: in the model's copy of a message a JWS text is abbreviated
+        to its fingerprint (distinct texts keep distinct names), at every depth"""
+        import hashlib
+        if isinstance(v, str) and len(v) > 80 and v.count(".") >= 2 and v.startswith("eyJ"):
+            return "jws:" + hashlib.sha256(v.encode()).hexdigest()[:24]
+        if isinstance(v, dict):
+            return {k: Run.short_jws(x) for k, x in v.items()}
+        if isinstance(v, list):
+            return [Run.short_jws(x) for x in v]
+        return v
+
+    def set_row(self, tag, cname, path, items, kw, rules, rec, jar=None, observe=(), conforming=None, model=None, merged=False):
+        """one row of a presence table.  rules: [(name, predicate(present?) -> bool, 'given' | 'after' | 'both')]
+        where present? is a function name -> bool on the message as given / as it stands after verify();
+        observe: [(name, predicate, 'given' | 'after')] counted, never a verdict (what a specification asks beyond the class's own
+        rule); model(before, after, out, rec) hands the row to the Gallina model."""
+        ctx = self.ctx
+        cls = self.byname[cname]
+        rec = dict(rec, **{"class": cname, "set_rule": tag, "path": path, "given_in_order": canon([list(i) for i in items]),
+                           "verify_kwargs": canon(kw)})
+        b = attempt(lambda: self.set_build(cls, path, items))
+        if b[0] == "exc":
+            ctx.count("set:%s:not-constructible:%s" % (tag, path))
+            return None
+        m = b[1]
+        before = canon(dict(m._dict))
+        kwargs = dict(copy.deepcopy(kw))
+        if jar is not None:
+            kwargs["keyjar"] = jar
+        try:
+            r = m.verify(**kwargs)
+            out = ("ok", r is not False)
+        except Exception as e:   # noqa
+            out = ("exc", type(e).__name__)
+        accepted = out == ("ok", True)
+        after = canon(dict(m._dict))
+        ctx.case_seen(rec, accepted)
+        ctx.count("set:%s:%s" % (tag, "accepted" if accepted else ("returned-False" if out[0] == "ok" else "refused:" + out[1])))
+        short = cname.split(".")[-1]
+        if accepted:
+            for name, pred, where in rules:
+                views = (("given", before), ("after", after)) if where == "both" else ((where, before if where == "given" else after),)
+                for wname, view in views:
+                    if not pred(lambda k, _v=view: k in _v):
+                        ctx.violation("set-rule:%s:%s" % (short, name),
+                                      "verify(%s) of %s accepted %r (%s, parameters given in the order %s) although the rule `%s` "
+                                      "does not hold of the message %s" % (", ".join(sorted(kwargs)), cname, self.short_jws(before), path,
+                                                                          [k for k, _ in items], name,
+                                                                          "as given" if wname == "given" else "as it stands afterwards"), rec)
+            for name, pred, where in observe:
+                if not pred(lambda k, _v=(before if where == "given" else after): k in _v):
+                    ctx.count("observation:set:%s:accepted-although:%s" % (tag, name))
+            self.schema_oracle(cname, cls, m, rec, "verify()", merged=merged)
+        elif conforming:
+            ctx.count("set:%s:refused-a-conforming-message" % tag)
+            self.set_refused_conforming.append("%s %s %s: %s" % (tag, path, [k for k, _ in items], out[1]))
+        if model is not None:
+            model(before, after, out, rec)
+        return out
+
+    def set_model_rules(self, rule, cname, kw):
+        """model hook: Model/MsgRules.v class_rules (rule set `rule`) through Model/MsgCheck.v chk_rules"""
+        def hook(before, after, out, rec):
+            ctx = self.ctx
+            if not (pure_json(before) and pure_json(after) and pure_json(kw)):
+                ctx.unmodelled += 1
+                return
+            if out[0] == "exc" and out[1] not in C.EXC:
+                ctx.count("skipped-model:exception-class:" + out[1])
+                return
+            inp = "(%s, %s, %s, %s, %s)" % (coq_str(rule), coq_str(cname), E.coq_z(self.NOW), coq_msg(kw), coq_msg(before))
+            res = "(Ok (%s, %s))" % (E.coq_bool(out[1]), coq_msg(after)) if out[0] == "ok" else "(Err %s)" % C.EXC[out[1]]
+            self.cases["setrules"].append(("(%s, %s)" % (inp, res), inp, rec))
+        return hook
+
+    CIBA = "idpyoidc.message.oidc.backchannel_authentication.AuthenticationRequest"
+    CIBA_JWT = "idpyoidc.message.oidc.backchannel_authentication.AuthenticationRequestJWT"
+
+    def set_model_ciba(self, kw, rt_claims, ht):
+        """model hook: Model/MsgRules.v ciba_authn_verify.  rt_claims: the claims of the (validly signed) request
+        object or None; ht: (alg, claims) of the (validly signed) id_token_hint or None"""
+        def hook(before, after, out, rec):
+            ctx = self.ctx
+            before, after = self.short_jws(before), self.short_jws(after)
+            if not (pure_json(before) and pure_json(after) and pure_json(kw)):
+                ctx.unmodelled += 1
+                return
+            if out[0] == "exc" and out[1] not in C.EXC:
+                ctx.count("skipped-model:exception-class:" + out[1])
+                return
+            # the two terms shared by hundreds of rows are defined once in front of every case file (self.ciba_prelude)
+            rt = "TJunk" if rt_claims is None else ("ciba_ro_tok" if rt_claims is self.ciba_shared_ro else
+                                                    "(TJws SigValid %s %s)" % (coq_str("RS256"), coq_msg(self.short_jws(rt_claims))))
+            htt = "TJunk" if ht is None else "ciba_ht_tok"
+            inp = "(%s, %s, %s, %s, %s, %s, %s)" % (coq_str(self.CIBA), coq_str(self.CIBA_JWT), coq_str(self.IDT), coq_msg(kw),
+                                                    rt, htt, coq_msg(before))
+            res = "(Ok %s)" % self.coq_msg_obj(after) if out[0] == "ok" else "(Err %s)" % C.EXC[out[1]]
+            term = "(%s, %s)" % (inp, res)
+            if out == ("ok", False):
+                ctx.count("skipped-model:ciba-returned-False")
+                return
+            self.cases["ciba"].append((term, inp, rec))
+        return hook
+
+    def verify_is(self, cls, *owners):
+        """the class runs the verify() defined by one of `owners` (qualified names)"""
+        vf = getattr(cls, "verify")
+        return "%s.%s" % (getattr(vf, "__module__", "?"), getattr(vf, "__qualname__", "?")) in owners
+
+    def set_rules(self):
+        self.set_refused_conforming = []
+        self.ciba_shared_ro = None
+        self.set_clock(True)
+        try:
+            self._set_ciba()
+            self._set_request_pair()
+            self._set_pairs()
+            self._set_helper()
+        finally:
+            self.set_clock(False)
+        if self.set_refused_conforming:
+            self.ctx.notes.append("set rules: %d conforming messages were refused, e.g. %s"
+                                  % (len(self.set_refused_conforming), "; ".join(self.set_refused_conforming[:5])))
+        obs = sorted(k for k in self.ctx.distribution if k.startswith("observation:set:"))
+        if obs:
+            self.ctx.notes.append("set rules, observations (accepted although a specification asks for more than the class's "
+                                  "own rule; not a verdict): " + "; ".join("%s x%d" % (k[len("observation:set:"):], self.ctx.distribution[k]) for k in obs))
+
+    # ---- the helper of the base class, as a function of (claims, message)
+    def _set_helper(self):
+        from idpyoidc.message import Message
+        ctx = self.ctx
+        import re
+        helpers = [n for n in dir(Message) if re.match(r"^(has|only|any|all|none|one)_.*_of$", n)]
+        ctx.count("set:helpers-of-Message", len(helpers))
+        for h in helpers:
+            if h != "has_none_or_one_of":
+                ctx.notes.append("Message.%s: a set helper this check has no oracle for" % h)
+        if "has_none_or_one_of" not in helpers:
+            ctx.notes.append("Message.has_none_or_one_of no longer exists")
+            return
+        top = 4 if ctx.quick else 6
+        for n in range(0, top + 1):
+            names = ["p%d" % i for i in range(n)]
+            for row in itertools.product((False, True), repeat=n):
+                present = [k for k, on in zip(names, row) if on]
+                # the claims in every order; the message holds the present ones in the opposite order
+                for claims in self.set_orders(names, cap=24 if n <= 4 else 8):
+                    m = Message(**{k: "v" for k in reversed(present)})
+                    rec = {"helper": "Message.has_none_or_one_of", "claims": list(claims), "present": present}
+                    out = attempt(lambda: m.has_none_or_one_of(list(claims)))
+                    want = len(present) <= 1
+                    ctx.case_seen(rec, True)
+                    ctx.count("set:helper:%s" % (out[1] if out[0] == "ok" else "raised"))
+                    if out[0] != "ok" or bool(out[1]) != want:
+                        ctx.violation("set-rule:Message.has_none_or_one_of",
+                                      "Message(%s).has_none_or_one_of(%r) answered %r: %d of the named parameters are present"
+                                      % (", ".join(present), list(claims), out[1], len(present)), rec)
+                    if out[0] == "ok":
+                        inp = "(%s, %s)" % (coq_list([coq_str(c) for c in claims], "pystr"), coq_msg(canon(dict(m._dict))))
+                        self.cases["none_or_one"].append(("(%s, (Ok %s))" % (inp, E.coq_bool(bool(out[1]))), inp, rec))
+
+    # ---- CIBA authentication request
+    def _set_ciba(self):
+        from idpyoidc.message.oidc import IdToken
+        ctx, rng = self.ctx, self.rng
+        cls = self.byname.get(self.CIBA)
+        jcls = self.byname.get(self.CIBA_JWT)
+        if cls is None or jcls is None:
+            ctx.notes.append("the CIBA authentication request classes no longer exist")
+            return
+        NOW, iss = self.NOW, self.HASH_ISS
+        HINTS = ["id_token_hint", "login_hint", "login_hint_token"]
+        idt = IdToken(iss=iss, sub="diana", aud=["c"], exp=NOW + 600, iat=NOW).to_jwt(
+            key=self.kj.get_signing_key("RSA", iss), algorithm="RS256")
+        hdr, idt_claims = self.jwt_parts(idt)
+        ht = (hdr["alg"], idt_claims)
+        VAL = {"id_token_hint": idt, "login_hint": "mail:diana@example.org", "login_hint_token": "hint.token.value",
+               "scope": ["openid"], "client_notification_token": "8d67dc78-7faa-4d41-aabd-67707b374255",
+               "acr_values": ["loa2"], "binding_message": "W4SCT", "user_code": "1234", "requested_expiry": 120}
+        OUTSIDE_OK = ["client_id", "client_assertion_type", "client_assertion", "request"]
+        inside = [k for k in cls.c_param if k not in OUTSIDE_OK and k != "*"]
+        for k in inside:
+            VAL.setdefault(k, C.plain_value(cls.c_param[k]))
+
+        def hints_rule(has):
+            return self.at_most_one([has(h) for h in HINTS])
+
+        def request_rule(has):
+            return self.excludes_all(has("request"), [has(k) for k in inside])
+
+        def mode_rule(kw):
+            return lambda has: self.comes_with_all(kw.get("mode") in ("ping", "push"), [has("client_notification_token")])
+        # what CIBA Core 7.1 asks beyond the class's rule: exactly one hint
+        observe = [("no-hint-at-all (CIBA Core 7.1: one and only one)", lambda has: sum(1 for h in HINTS if has(h)) >= 1, "after")]
+
+        def request_object(members):
+            claims = {"iss": "c", "aud": [iss], "exp": NOW + 600, "nbf": NOW, "iat": NOW, "jti": "j%d" % rng.randrange(10 ** 6)}
+            claims.update({k: VAL[k] for k in members})
+            tok = jcls(**copy.deepcopy(claims)).to_jwt(key=self.kj.get_signing_key("RSA", "c"), algorithm="RS256")
+            return tok, self.jwt_parts(tok)[1]
+
+        def rules_for(kw):
+            return [("at most one of id_token_hint / login_hint / login_hint_token", hints_rule, "both"),
+                    ("request excludes every parameter that is not client authentication", request_rule, "given"),
+                    ("ping / push mode comes with client_notification_token", mode_rule(kw), "after")]
+        # -- the hint table: 2^3 patterns x every order of the present hints x construction path x mode
+        base = [("scope", VAL["scope"]), ("client_id", "c"), ("binding_message", VAL["binding_message"])]
+        for row in itertools.product((False, True), repeat=3):
+            present = [h for h, on in zip(HINTS, row) if on]
+            for order in self.set_orders(present):
+                for path in self.SET_PATHS + ("request-object",):
+                    for mode, with_cnt in ((None, False), ("ping", True), ("push", False), ("poll", False)):
+                        for base_first in (True, False):
+                            if not base_first and (mode is not None or path in ("from_urlencoded",)):
+                                continue
+                            kw = {"mode": mode} if mode else {}
+                            extra = [("client_notification_token", VAL["client_notification_token"])] if with_cnt else []
+                            rec = {"hints_present": dict(zip(HINTS, row)), "mode": mode}
+                            ok = len(present) <= 1 and (mode != "push" or with_cnt)
+                            if path == "request-object":
+                                members = ["scope", "binding_message"] + [k for k, _ in extra]
+                                members = (members + list(order)) if base_first else (list(order) + members)
+                                tok, claims = request_object(members)
+                                items = [("client_id", "c"), ("request", tok)]
+                                rec["request_object_claims"] = self.short_jws(claims)
+                                rec["delivery"] = "the hints inside the signed request object"
+                                self.set_row("ciba-hints", self.CIBA, "constructor", items, kw, rules_for(kw), rec, jar=self.kj,
+                                             observe=observe, conforming=ok,
+                                             model=self.set_model_ciba(kw, claims, ht if "id_token_hint" in present else None))
+                                continue
+                            hints = [(h, VAL[h]) for h in order]
+                            items = (base + extra + hints) if base_first else (hints + base + extra)
+                            self.set_row("ciba-hints", self.CIBA, path, items, kw, rules_for(kw), rec, jar=self.kj,
+                                         observe=observe, conforming=ok,
+                                         model=self.set_model_ciba(kw, None, ht if "id_token_hint" in present else None))
+        # -- `request` x every subset of the parameters that belong inside it (2 x 2^n rows), one random order each
+        ro_tok, ro_claims = request_object(["scope", "login_hint", "binding_message"])
+        self.ciba_shared_ro = ro_claims
+        self.ciba_prelude = ("Definition ciba_ht_tok : token := (TJws SigValid %s %s).\nDefinition ciba_ro_tok : token := (TJws SigValid %s %s).\n"
+                             % (coq_str(ht[0]), coq_msg(ht[1]), coq_str("RS256"), coq_msg(self.short_jws(ro_claims))))
+        for with_request in (False, True):
+            for row in itertools.product((False, True), repeat=len(inside)):
+                present = [k for k, on in zip(inside, row) if on]
+                mode = rng.choice([None, "ping", "push", "poll"])
+                kw = {"mode": mode} if mode else {}
+                items = [(k, VAL[k]) for k in present] + [("client_id", "c")] + ([("request", ro_tok)] if with_request else [])
+                rng.shuffle(items)
+                rec = {"request": with_request, "present": present, "mode": mode}
+                if with_request:
+                    rec["request_object_claims"] = self.short_jws(ro_claims)
+                self.set_row("ciba-request", self.CIBA, rng.choice(["constructor", "from_dict", "from_json", "setitem"]), items, kw,
+                             rules_for(kw), rec, jar=self.kj, observe=observe,
+                             model=self.set_model_ciba(kw, ro_claims if with_request else None,
+                                                       ht if "id_token_hint" in present else None))
+
+    # ---- request / request_uri
+    def _set_request_pair(self):
+        from idpyoidc.message import Message
+        ctx = self.ctx
+        for name, cls in self.classes:
+            if "request" not in cls.c_param or "request_uri" not in cls.c_param or tier1(cls.c_param["request"]) != "str":
+                continue
+            vf = cls.verify
+            rule = self.REQUEST_RULES.get("%s.%s" % (getattr(vf, "__module__", "?"), getattr(vf, "__qualname__", "?")))
+            req = [k for k, e in cls.c_param.items() if e[1] and k != "*"]
+            full = {k: self.RO_VALUES.get(k, C.plain_value(cls.c_param[k])) for k in req}
+            full.setdefault("client_id", "c")
+            tok = Message(**copy.deepcopy(full)).to_jwt(key=self.kj.get_signing_key("RSA", "c"), algorithm="RS256")
+            VAL = {"request": tok, "request_uri": "https://rp.example/ro.jwt"}
+            rules = [("at least one of request / request_uri", lambda has: self.at_least_one([has("request"), has("request_uri")]),
+                      "given")] if rule == "jar" else []
+            # OIDC Core 6 / RFC 9101: the two MUST NOT be used together - no verify() of the package says so
+            observe = [("request together with request_uri (OIDC Core 6: MUST NOT both be used)",
+                        lambda has: not (has("request") and has("request_uri")), "given")]
+            for row in itertools.product((False, True), repeat=2):
+                present = [k for k, on in zip(("request", "request_uri"), row) if on]
+                for order in self.set_orders(present):
+                    for path in self.SET_PATHS:
+                        for base_first in (True, False):
+                            pair = [(k, VAL[k]) for k in order]
+                            items = (list(full.items()) + pair) if base_first else (pair + list(full.items()))
+                            rec = {"present": dict(zip(("request", "request_uri"), row))}
+
+                            def model(before, after, out, rec, name=name, with_obj=row[0]):
+                                if rule != "jar":
+                                    return
+                                o = ("accepted", True) if out == ("ok", True) else ("refused", out[1] if out[0] == "exc" else "False")
+                                tt = "(TJws SigValid %s %s)" % (coq_str("RS256"), coq_msg(full)) if with_obj else "TJunk"
+                                self.set_request_case(name, tt, self.short_jws(before), self.short_jws(after), o, rec)
+                            self.set_row("request-pair" if rule == "jar" else "request-pair:no-rule", name, path, items, {}, rules, rec,
+                                         jar=self.kj, observe=observe, conforming=bool(present) if rule == "jar" else None, model=model,
+                                         merged=row[0])
+
+    def set_request_case(self, name, tok_term, before, after, out, rec):
+        """Model/Msg.v jar_verify through chk_request, from canonical messages"""
+        ctx = self.ctx
+        if out[0] == "accepted":
+            res = "(Ok %s)" % self.coq_msg_obj(after)
+        elif out[1] in C.EXC:
+            res = "(Err %s)" % C.EXC[out[1]]
+        else:
+            ctx.count("skipped-model:exception-class:" + out[1])
+            return
+        if not (pure_json(before) and pure_json(after)):
+            ctx.unmodelled += 1
+            return
+        inp = "(%s, %s, %s, %s, %s)" % (coq_str("jar"), coq_str(name), coq_str(self.RO_CLASS), tok_term, coq_msg(before))
+        self.cases["request"].append(("(%s, %s)" % (inp, res), inp, rec))
+
+    # ---- the pair / triple rules of the other classes
+    def _set_pairs(self):
+        from idpyoidc.message.oidc import IdToken
+        ctx, rng = self.ctx, self.rng
+        NOW, iss = self.NOW, self.HASH_ISS
+        O = "idpyoidc.message.oidc."
+        A = "idpyoidc.message.oauth2."
+
+        def table(tag, cname, members, values, base, rules, kw=None, jar=None, paths=None, rule_model=None, observe=(),
+                  conforming=None, model_if=None):
+            """the full presence table of `members`: every pattern x every order of the present members x every path x
+            the other parameters in front / behind"""
+            if cname not in self.byname:
+                ctx.notes.append("set rules: class %s no longer exists" % cname)
+                return
+            for row in itertools.product((False, True), repeat=len(members)):
+                present = [k for k, on in zip(members, row) if on]
+                for order in self.set_orders(present):
+                    for path in (paths or self.SET_PATHS):
+                        for base_first in (True, False):
+                            mem = [(k, values[k]) for k in order]
+                            items = (list(base) + mem) if base_first else (mem + list(base))
+                            rec = {"present": dict(zip(members, row))}
+                            has0 = lambda k, _p=set(present) | {b for b, _ in base}: k in _p   # noqa
+                            conf = conforming(has0) if conforming else None
+                            use_model = rule_model is not None and (model_if is None or model_if(has0))
+                            self.set_row(tag, cname, path, items, kw or {}, rules, rec, jar=jar, observe=observe, conforming=conf,
+                                         model=self.set_model_rules(rule_model, cname, {}) if use_model else None)
+
+        # RegistrationResponse: all or none
+        RR = ["registration_client_uri", "registration_access_token"]
+        table("regresp", O + "RegistrationResponse", RR, {"registration_client_uri": "https://op/reg?c=1", "registration_access_token": "tok"},
+              [("client_id", "c"), ("redirect_uris", ["https://rp/cb"])],
+              [("all or none of registration_client_uri / registration_access_token", lambda has: self.all_or_none([has(k) for k in RR]), "both")],
+              rule_model="regresp", conforming=lambda has: self.all_or_none([has(k) for k in RR]))
+        # LogoutToken: at least one of sub / sid
+        EV = "http://schemas.openid.net/event/backchannel-logout"
+        table("logout-sub-sid", O + "session.LogoutToken", ["sub", "sid"], {"sub": "s", "sid": "sid1"},
+              [("iss", iss), ("aud", ["c"]), ("iat", NOW), ("jti", "j"), ("events", {EV: {}})],
+              [("at least one of sub / sid", lambda has: self.at_least_one([has("sub"), has("sid")]), "both")],
+              paths=("constructor", "from_dict", "from_json", "setitem"), rule_model="logout",
+              conforming=lambda has: has("sub") or has("sid"))
+        # EndSessionRequest: post_logout_redirect_uri comes with id_token_hint (a signed, valid ID Token)
+        idt = IdToken(iss=iss, sub="s", aud=["c"], exp=NOW + 600, iat=NOW).to_jwt(key=self.kj.get_signing_key("RSA", iss), algorithm="RS256")
+        table("endsession", O + "session.EndSessionRequest", ["post_logout_redirect_uri", "id_token_hint"],
+              {"post_logout_redirect_uri": "https://rp/out", "id_token_hint": idt}, [("state", "st")],
+              [("post_logout_redirect_uri comes with id_token_hint",
+                lambda has: self.comes_with_all(has("post_logout_redirect_uri"), [has("id_token_hint")]), "both")],
+              kw={"iss": iss, "client_id": "c"}, jar=self.kj, rule_model="endsession",
+              conforming=lambda has: has("id_token_hint") or not has("post_logout_redirect_uri"),
+              model_if=lambda has: not has("id_token_hint"))
+        # OauthClientInformationResponse (and whatever inherits its verify): client_secret comes with client_secret_expires_at
+        for name, cls in self.classes:
+            if self.verify_is(cls, A + "OauthClientInformationResponse.verify"):
+                table("clientinfo", name, ["client_secret", "client_secret_expires_at"], {"client_secret": "s3cret", "client_secret_expires_at": 0},
+                      [(k, v) for k, v in C.base_kwargs(cls).items()],
+                      [("client_secret comes with client_secret_expires_at",
+                        lambda has: self.comes_with_all(has("client_secret"), [has("client_secret_expires_at")]), "both")],
+                      rule_model="clientinfo", conforming=lambda has: has("client_secret_expires_at") or not has("client_secret"))
+            # ... and the metadata rule (RFC 7591 2: redirect_uris for the redirect-based grant types)
+            if self.verify_is(cls, A + "OauthClientInformationResponse.verify", A + "OauthClientMetadata.verify"):
+                rm = "clientinfo" if self.verify_is(cls, A + "OauthClientInformationResponse.verify") else "clientmeta"
+                for gt in (None, [], ["authorization_code"], ["implicit"], ["refresh_token"], ["refresh_token", "implicit"],
+                           ["client_credentials", "authorization_code", "refresh_token"]):
+                    for with_ru in (False, True):
+                        for flip in (False, True):
+                            for path in ("constructor", "from_dict", "from_json", "setitem"):
+                                items = list(C.base_kwargs(cls).items()) + ([("grant_types", gt)] if gt is not None else []) \
+                                    + ([("redirect_uris", ["https://rp/cb"])] if with_ru else [])
+                                if flip:
+                                    items.reverse()
+                                needs = bool(gt) and bool(set(gt) & {"authorization_code", "implicit"})
+                                self.set_row("clientmeta", name, path, items, {},
+                                             [("a redirect-based grant type comes with redirect_uris",
+                                               lambda has, _n=needs: self.comes_with_all(_n, [has("redirect_uris")]), "both")],
+                                             {"grant_types": gt, "redirect_uris": with_ru}, conforming=with_ru or not needs,
+                                             model=self.set_model_rules(rm, name, {}))
+        # device_authorization.AccessTokenRequest: device_code comes with grant_type AND client_id
+        DEV = A + "device_authorization.AccessTokenRequest"
+        DM = ["device_code", "grant_type", "client_id"]
+        table("device", DEV, DM, {"device_code": "dc-1", "grant_type": "urn:ietf:params:oauth:grant-type:device_code", "client_id": "c"},
+              [("code", "x"), ("redirect_uri", "https://rp/cb")],
+              [("device_code comes with grant_type and client_id",
+                lambda has: self.comes_with_all(has("device_code"), [has("grant_type"), has("client_id")]), "after")],
+              paths=("constructor", "no-defaults", "from_dict", "from_json", "from_urlencoded", "setitem"), rule_model="device")
+        # RegistrationRequest: the three (alg, enc) pairs, 4^3 presence patterns, both orders
+        pre = ["request_object_encryption", "id_token_encrypted_response", "userinfo_encrypted_response"]
+        RQ = O + "RegistrationRequest"
+        names = [q + s for q in pre for s in ("_alg", "_enc")]
+        vals = {n: ("RSA-OAEP" if n.endswith("_alg") else "A128GCM") for n in names}
+        for row in itertools.product((False, True), repeat=len(names)):
+            present = [k for k, on in zip(names, row) if on]
+            for order in (present, list(reversed(present)), rng.sample(present, len(present))):
+                for path in ("constructor", "from_json"):
+                    items = [("redirect_uris", ["https://rp/cb"])] + [(k, vals[k]) for k in order]
+                    rules = [("%s_enc comes with %s_alg" % (q, q),
+                              lambda has, _q=q: self.comes_with_all(has(_q + "_enc"), [has(_q + "_alg")]), "both") for q in pre]
+                    ok = all((q + "_alg") in present or (q + "_enc") not in present for q in pre)
+                    self.set_row("regreq-enc-alg", RQ, path, items, {}, rules, {"present": dict(zip(names, row))}, conforming=ok,
+                                 model=self.set_model_rules("regreq", RQ, {}))
+        # TokenExchangeRequest: RFC 8693 2.1 ties actor_token_type to actor_token; the class has no verify() of its own
+        TX = A + "TokenExchangeRequest"
+        if TX in self.byname:
+            for row in itertools.product((False, True), repeat=2):
+                present = [k for k, on in zip(("actor_token", "actor_token_type"), row) if on]
+                for order in self.set_orders(present):
+                    items = list(C.base_kwargs(self.byname[TX]).items()) + [(k, "urn:ietf:params:oauth:token-type:access_token" if k.endswith("type") else "tok") for k in order]
+                    self.set_row("token-exchange-actor:no-rule", TX, "constructor", items, {}, [], {"present": present},
+                                 observe=[("actor_token without actor_token_type or the reverse (RFC 8693 2.1; enforced by the token endpoint)",
+                                           lambda has: has("actor_token") == has("actor_token_type"), "given")])
+
     # ------------------------------------------------------------ C3. code <-> c_hash, access_token <-> at_hash
     HASH_ISS = "https://op.example"
     AZR = "idpyoidc.message.oidc.AuthorizationResponse"
@@ -1392,14 +1902,23 @@ class Run:
                                   ("rules", "rules_case * res (bool * msg)", "chk_rules", "m_rules"),
                                   ("request", "request_case * res msg", "chk_request", "m_request"),
                                   ("bclogout", "bclogout_case * res msg", "chk_bclogout", "m_bclogout"),
-                                  ("authzresp_idt", "idt_resp_case * res (bool * msg)", "chk_authzresp_idt", "m_authzresp_idt")):
+                                  ("authzresp_idt", "idt_resp_case * res (bool * msg)", "chk_authzresp_idt", "m_authzresp_idt"),
+                                  # the presence tables of the set rules: always evaluated in full, never sampled
+                                  ("setrules", "rules_case * res (bool * msg)", "chk_rules", "m_rules"),
+                                  ("ciba", "ciba_case * res msg", "chk_ciba", "m_ciba"),
+                                  ("none_or_one", "list pystr * msg * res bool", "chk_none_or_one", "m_none_or_one")):
             cs = self.cases[kind]
             cap = (1200 if kind != "rules" else 4000) if ctx.quick else 10 ** 9
+            if kind in ("setrules", "ciba", "none_or_one"):
+                cap = 10 ** 9
             if len(cs) > cap:
                 cs = self.rng.sample(cs, cap)
             ctx.count("model-cases:" + kind, len(cs))
             if kind == "authzresp_idt":
                 C.check_cases(ctx, IMP, ty, chk, fn, cs, kind, shard=60, prelude=getattr(self, "idt_prelude", ""))
+                continue
+            if kind in ("setrules", "ciba"):
+                C.check_cases(ctx, IMP, ty, chk, fn, cs, kind, shard=100, prelude=getattr(self, "ciba_prelude", "") if kind == "ciba" else "")
                 continue
             C.check_cases(ctx, IMP, ty, chk, fn, cs, kind)
 
@@ -1412,6 +1931,7 @@ def run(ctx):
     r.slots()
     r.authz_table()
     r.rules_tables()
+    r.set_rules()
     r.signed_objects()
     r.request_objects()
     r.hash_tables()
